@@ -1,13 +1,169 @@
 import PbBss.Proofs.BfProof
-/-! # C12 — GEV / PCA maximise their Rayleigh quotients; BAN only rescales (work in progress: spike theorems) -/
-open PbBss PbBss.Bf Matrix
-namespace PbBss.C12
-variable {D : Nat}
+/-! # C12 — GEV and PCA beamformers maximise their Rayleigh quotients; BAN only rescales
 
-theorem gev_rayleigh_le_core (Pxx Pnn V : Matrix (Fin D) (Fin D) ℂ) (l : Fin D → ℝ) (hV : IsUnit V)
+Statements only (helper lemmas: `PbBss/Proofs/BfProof.lean`, spike `Proofs/Gev.lean`).  Models: `PbBss/Model/Bf.lean`
+at `α := ℝ`, `β := ℂ`, tied to `pb_bss/extraction/beamformer.py` / `beamformer_wrapper.py` by the correspondence run
+of `harness/props/c12.py`.  Externals enter through their contracts:
+* `scipy.linalg.eigh(Φxx, Φnn)` (and `eig` on the same Hermitian-definite pencil): `Vᴴ Φnn V = 1`, `Vᴴ Φxx V = diag λ`;
+* `np.linalg.eigh(Φ)`: `Uᴴ U = 1`, `Uᴴ Φ U = diag λ`, `λ` ascending;
+* `np.sqrt` on complex numbers (`csqrt`): `|csqrt z| = sqrt |z|`, `csqrt x = sqrt x` for real `x ≥ 0`. -/
+open PbBss PbBss.Bf PbBss.BfProof Matrix
+open scoped ComplexOrder
+namespace PbBss.C12
+variable {D n : Nat}
+
+/-! ### GEV -/
+/-- the vector `get_gev_vector` selects (`eigenvecs[:, argmax(eigenvals)]`) has output SNR equal to the largest
+generalised eigenvalue: `wᴴΦxx w = λ_max`, `wᴴΦnn w = 1`, `λ_max ≥ λ_i` -/
+theorem gev_quotient_eq (Pxx Pnn V : Matrix (Fin (n+1)) (Fin (n+1)) ℂ) (l : Fin (n+1) → ℝ)
+    (hN : Vᴴ * Pnn * V = 1) (hX : Vᴴ * Pxx * V = diagonal (fun i => (l i : ℂ))) :
+    star (gevSelect l V) ⬝ᵥ Pxx *ᵥ gevSelect l V = (l (vargmax l) : ℂ) ∧
+    star (gevSelect l V) ⬝ᵥ Pnn *ᵥ gevSelect l V = 1 ∧ ∀ i, l i ≤ l (vargmax l) :=
+  ⟨(gev_quotient Pxx Pnn V l hN hX).1, (gev_quotient Pxx Pnn V l hN hX).2, fun i => vargmax_ge l i⟩
+
+/-- … and no vector exceeds it: `vᴴΦxx v ≤ λ_max vᴴΦnn v` for all `v` -/
+theorem gev_max (Pxx Pnn V : Matrix (Fin (n+1)) (Fin (n+1)) ℂ) (l : Fin (n+1) → ℝ)
+    (hN : Vᴴ * Pnn * V = 1) (hX : Vᴴ * Pxx * V = diagonal (fun i => (l i : ℂ))) (v : Fin (n+1) → ℂ) :
+    (star v ⬝ᵥ Pxx *ᵥ v).re ≤ l (vargmax l) * (star v ⬝ᵥ Pnn *ᵥ v).re :=
+  BfProof.gev_max Pxx Pnn V l hN hX v
+
+/-- corollary: the SNR of *any* vector with non-zero noise output — in particular of every vector `get_bf_vector`
+can return (`mvdrFromSolve`, `souden`, `wmwf`, `pcaVector`, unit vectors, `ban` of these; see the `example`s
+below) — is at most the SNR of the GEV vector -/
+theorem gev_dominates_all (Pxx Pnn V : Matrix (Fin (n+1)) (Fin (n+1)) ℂ) (l : Fin (n+1) → ℝ)
+    (hN : Vᴴ * Pnn * V = 1) (hX : Vᴴ * Pxx * V = diagonal (fun i => (l i : ℂ))) (v : Fin (n+1) → ℂ)
+    (hv : 0 < (star v ⬝ᵥ Pnn *ᵥ v).re) :
+    (star v ⬝ᵥ Pxx *ᵥ v).re / (star v ⬝ᵥ Pnn *ᵥ v).re ≤
+      (star (gevSelect l V) ⬝ᵥ Pxx *ᵥ gevSelect l V).re / (star (gevSelect l V) ⬝ᵥ Pnn *ᵥ gevSelect l V).re := by
+  obtain ⟨h1, h2⟩ := gev_quotient Pxx Pnn V l hN hX
+  rw [h1, h2, div_le_iff₀ hv]
+  simpa using BfProof.gev_max Pxx Pnn V l hN hX v
+
+/-- the output SNR `wᴴPw / wᴴQw` does not depend on a non-zero complex scale of `w`; this is why the differently
+normalised eigenvectors of `scipy.linalg.eig` (`use_eig=True`: unit 2-norm instead of `Vᴴ Φnn V = 1`) attain the
+same SNR `λ_max` as those of `eigh` -/
+theorem quotient_smul (c : ℂ) (hc : c ≠ 0) (w : Fin D → ℂ) (P Q : Matrix (Fin D) (Fin D) ℂ) :
+    (star (c • w) ⬝ᵥ P *ᵥ (c • w)).re / (star (c • w) ⬝ᵥ Q *ᵥ (c • w)).re =
+    (star w ⬝ᵥ P *ᵥ w).re / (star w ⬝ᵥ Q *ᵥ w).re := by
+  have e : ∀ M : Matrix (Fin D) (Fin D) ℂ,
+      (star (c • w) ⬝ᵥ M *ᵥ (c • w)).re = Complex.normSq c * (star w ⬝ᵥ M *ᵥ w).re := by
+    intro M
+    rw [mulVec_smul, star_smul, smul_dotProduct, dotProduct_smul, smul_eq_mul, smul_eq_mul, ← mul_assoc,
+      RCLike.star_def, ← Complex.normSq_eq_conj_mul_self]
+    simp
+  rw [e, e, mul_div_mul_left _ _ (Complex.normSq_pos.mpr hc).ne']
+
+/-! ### PCA -/
+/-- `get_pca`'s vector (`eigenvecs[..., -1]`) has unit norm, Rayleigh quotient `λ_max = eigenvals[..., -1]`, and no
+vector has a larger quotient `vᴴΦv / vᴴv` -/
+theorem pca_max (P U : Matrix (Fin (n+1)) (Fin (n+1)) ℂ) (l : Fin (n+1) → ℝ) (hU : Uᴴ * U = 1)
+    (hX : Uᴴ * P * U = diagonal (fun i => (l i : ℂ))) (hl : Monotone l) :
+    star (pcaSelect l U).1 ⬝ᵥ P *ᵥ (pcaSelect l U).1 = ((pcaSelect l U).2 : ℂ) ∧
+    star (pcaSelect l U).1 ⬝ᵥ (pcaSelect l U).1 = 1 ∧
+    ∀ v : Fin (n+1) → ℂ, (star v ⬝ᵥ P *ᵥ v).re ≤ (pcaSelect l U).2 * (star v ⬝ᵥ v).re :=
+  BfProof.pca_max P U l hU hX hl
+
+/-- the scaling options multiply the unit-norm principal eigenvector by `1`, `sqrt(tr Φ)` (`'trace'`) resp.
+`λ_max` (`'eigenvalue'`); `sqrt(tr Φ) > 0` for a non-zero positive semidefinite `Φ` -/
+theorem pca_scalings (csqrt : ℂ → ℂ) (hcs : ∀ x : ℝ, 0 ≤ x → csqrt (x : ℂ) = ((Real.sqrt x : ℝ) : ℂ))
+    (P : Matrix (Fin D) (Fin D) ℂ) (hP : P.PosSemidef) (v : Fin D → ℂ) (hv : star v ⬝ᵥ v = 1) (lam : ℝ) :
+    pcaVector csqrt .none P v lam = v ∧
+    pcaVector csqrt .trace P v lam = ((Real.sqrt (Matrix.trace P).re : ℝ) : ℂ) • v ∧
+    pcaVector csqrt .eigenvalue P v lam = (lam : ℂ) • v ∧
+    0 ≤ (Matrix.trace P).re ∧ (P ≠ 0 → 0 < Real.sqrt (Matrix.trace P).re) :=
+  BfProof.pca_scalings csqrt hcs P hP v hv lam
+
+/-- … and `λ_max > 0` for a non-zero positive semidefinite `Φ` -/
+theorem pca_lambda_pos (P U : Matrix (Fin (n+1)) (Fin (n+1)) ℂ) (l : Fin (n+1) → ℝ) (hU : Uᴴ * U = 1)
+    (hX : Uᴴ * P * U = diagonal (fun i => (l i : ℂ))) (hl : Monotone l) (hP : P.PosSemidef) (hne : P ≠ 0) :
+    0 < (pcaSelect l U).2 := BfProof.pca_lambda_pos P U l hU hX hl hP hne
+
+/-! ### rank-one PSD estimates (`get_pca_rank_one_estimate`, `get_gev_rank_one_estimate`) -/
+/-- Hermitian (the trace of a Hermitian input is real), rank ≤ 1, trace preserving -/
+theorem rank1_props (P : Matrix (Fin D) (Fin D) ℂ) (a : Fin D → ℂ) (ha : a ≠ 0) :
+    ((Matrix.trace P).im = 0 → (Matrix.of (rankOne ℝ P a)).IsHermitian) ∧
+    (Matrix.of (rankOne ℝ P a)).rank ≤ 1 ∧
+    Matrix.trace (Matrix.of (rankOne ℝ P a)) = Matrix.trace P := BfProof.rank1_props P a ha
+
+/-- PCA: an eigenvector of `σ b bᴴ` for a non-zero eigenvalue is parallel to the steering vector `b` -/
+theorem pca_top_parallel (b v : Fin D → ℂ) (σ lam : ℂ) (hlam : lam ≠ 0)
+    (hv : (σ • vecMulVec b (star b)) *ᵥ v = lam • v) : v = (σ * (star b ⬝ᵥ v) / lam) • b :=
+  BfProof.pca_top_parallel b v σ lam hlam hv
+
+/-- GEV: `Φnn w` of a generalised eigenvector `w` of `(σ b bᴴ, Φnn)` for a non-zero eigenvalue is parallel to `b` -/
+theorem gev_atf_parallel (N : Matrix (Fin D) (Fin D) ℂ) (b w : Fin D → ℂ) (σ lam : ℂ) (hlam : lam ≠ 0)
+    (hw : (σ • vecMulVec b (star b)) *ᵥ w = lam • (N *ᵥ w)) : gevAtf N w = (σ * (star b ⬝ᵥ w) / lam) • b :=
+  BfProof.gev_atf_parallel N b w σ lam hlam hw
+
+/-- exactly rank-one target `σ b bᴴ`: from the eigen-solver contract, the estimate built from the column with
+eigenvalue `λ_k ≠ 0` equals the target, and the estimated transfer function is a non-zero multiple of `b`
+(GEV variant; `Φnn := 1`, where `gevAtf 1 w = w`, is the PCA variant) -/
+theorem rank1_recovers (Pnn V : Matrix (Fin D) (Fin D) ℂ) (l : Fin D → ℝ) (b : Fin D → ℂ) (hb : b ≠ 0)
+    (σ : ℂ) (hN : Vᴴ * Pnn * V = 1)
+    (hX : Vᴴ * (σ • vecMulVec b (star b)) * V = diagonal (fun i => (l i : ℂ))) (k : Fin D) (hk : l k ≠ 0) :
+    Matrix.of (rankOne ℝ (σ • vecMulVec b (star b)) (gevAtf Pnn fun d => V d k)) = σ • vecMulVec b (star b) ∧
+    ∃ c : ℂ, c ≠ 0 ∧ gevAtf Pnn (fun d => V d k) = c • b :=
+  rank1_recovers_of_contract Pnn V l b hb σ hN hX k hk
+
+/-! ### blind analytic normalisation -/
+/-- BAN multiplies the vector by the real gain `sqrt(wᴴΦΦw) / (wᴴΦw)`, which is positive for a positive definite
+`Φnn` and `w ≠ 0` -/
+theorem ban_factor (csqrt : ℂ → ℂ) (hcs : ∀ z, ‖csqrt z‖ = Real.sqrt ‖z‖) (w : Fin D → ℂ)
+    (N : Matrix (Fin D) (Fin D) ℂ) (hN : N.PosDef) (hw : w ≠ 0) :
+    ban (α := ℝ) csqrt w N = ((banFactor (α := ℝ) csqrt w N : ℝ) : ℂ) • w ∧
+    banFactor (α := ℝ) csqrt w N = Real.sqrt (star w ⬝ᵥ N *ᵥ (N *ᵥ w)).re / (star w ⬝ᵥ N *ᵥ w).re ∧
+    0 < banFactor (α := ℝ) csqrt w N :=
+  ⟨ban_eq_smul csqrt w N, (banFactor_pos csqrt hcs w N hN hw).1, (banFactor_pos csqrt hcs w N hN hw).2⟩
+
+/-- the result depends on the scale `c ≠ 0` of the input vector only through its phase (not on `|c|`) -/
+theorem ban_scale (csqrt : ℂ → ℂ) (hcs : ∀ z, ‖csqrt z‖ = Real.sqrt ‖z‖) (w : Fin D → ℂ)
+    (N : Matrix (Fin D) (Fin D) ℂ) (c : ℂ) (hc : c ≠ 0) :
+    ban (α := ℝ) csqrt (c • w) N = (c / (‖c‖ : ℂ)) • ban (α := ℝ) csqrt w N ∧
+    ∀ r : ℝ, 0 < r → ban (α := ℝ) csqrt (((r : ℝ) : ℂ) • w) N = ban (α := ℝ) csqrt w N := by
+  refine ⟨ban_smul csqrt hcs w N c hc, fun r hr => ?_⟩
+  rw [ban_smul csqrt hcs w N _ (by exact_mod_cast hr.ne')]
+  have : ((r : ℂ) / ((‖(r : ℂ)‖ : ℝ) : ℂ)) = 1 := by
+    rw [Complex.norm_real, Real.norm_of_nonneg hr.le]
+    exact div_self (by exact_mod_cast hr.ne')
+  rw [this, one_smul]
+
+/-- direction and every quotient of quadratic forms (SNR) are untouched by BAN -/
+theorem ban_preserves_quotient (csqrt : ℂ → ℂ) (w : Fin D → ℂ) (N P Q : Matrix (Fin D) (Fin D) ℂ)
+    (hg : banFactor (α := ℝ) csqrt w N ≠ 0) :
+    (star (ban (α := ℝ) csqrt w N) ⬝ᵥ P *ᵥ ban (α := ℝ) csqrt w N).re /
+      (star (ban (α := ℝ) csqrt w N) ⬝ᵥ Q *ᵥ ban (α := ℝ) csqrt w N).re =
+    (star w ⬝ᵥ P *ᵥ w).re / (star w ⬝ᵥ Q *ᵥ w).re := by
+  rw [ban_eq_smul]
+  set g := banFactor (α := ℝ) csqrt w N
+  have e : ∀ M : Matrix (Fin D) (Fin D) ℂ,
+      (star ((g : ℂ) • w) ⬝ᵥ M *ᵥ ((g : ℂ) • w)).re = g * g * (star w ⬝ᵥ M *ᵥ w).re := by
+    intro M
+    rw [mulVec_smul, star_smul, smul_dotProduct, dotProduct_smul, smul_eq_mul, smul_eq_mul]
+    simp [Complex.mul_re, mul_assoc]
+  rw [e, e, mul_div_mul_left _ _ (mul_ne_zero hg hg)]
+
+/-! ### non-vacuity -/
+/-- a complex square root meeting both contracts exists (NumPy's principal branch is another one) -/
+example : ∃ csqrt : ℂ → ℂ, (∀ z, ‖csqrt z‖ = Real.sqrt ‖z‖) ∧
+    ∀ x : ℝ, 0 ≤ x → csqrt (x : ℂ) = ((Real.sqrt x : ℝ) : ℂ) :=
+  ⟨fun z => ((Real.sqrt ‖z‖ : ℝ) : ℂ), fun z => by simp [abs_of_nonneg (Real.sqrt_nonneg _)],
+    fun x hx => by simp [abs_of_nonneg hx]⟩
+
+/-- the eigen-solver contract is met e.g. by `V = 1`, `Φnn = 1`, `Φxx = diag λ` -/
+example (l : Fin 2 → ℝ) : ((1 : Matrix (Fin 2) (Fin 2) ℂ)ᴴ * 1 * 1 = 1) ∧
+    ((1 : Matrix (Fin 2) (Fin 2) ℂ)ᴴ * diagonal (fun i => (l i : ℂ)) * 1 = diagonal (fun i => (l i : ℂ))) := by
+  simp
+
+/-- `gev_dominates_all` instantiated at model outputs -/
+example (Pxx Pnn V : Matrix (Fin (n+1)) (Fin (n+1)) ℂ) (l : Fin (n+1) → ℝ)
     (hN : Vᴴ * Pnn * V = 1) (hX : Vᴴ * Pxx * V = diagonal (fun i => (l i : ℂ)))
-    (lmax : ℝ) (hl : ∀ i, l i ≤ lmax) (w : Fin D → ℂ) :
-    (star w ⬝ᵥ Pxx *ᵥ w).re ≤ lmax * (star w ⬝ᵥ Pnn *ᵥ w).re :=
-  gev_rayleigh_le Pxx Pnn V l hV hN hX lmax hl w
+    (a u : Fin (n+1) → ℂ) (phi : Matrix (Fin (n+1)) (Fin (n+1)) ℂ) (ref : Fin (n+1)) (eps μ : ℝ) :
+    (star (mvdrFromSolve ℝ a u) ⬝ᵥ Pxx *ᵥ mvdrFromSolve ℝ a u).re ≤
+      l (vargmax l) * (star (mvdrFromSolve ℝ a u) ⬝ᵥ Pnn *ᵥ mvdrFromSolve ℝ a u).re ∧
+    (star (souden phi ref eps) ⬝ᵥ Pxx *ᵥ souden phi ref eps).re ≤
+      l (vargmax l) * (star (souden phi ref eps) ⬝ᵥ Pnn *ᵥ souden phi ref eps).re ∧
+    (star (wmwf μ phi ref) ⬝ᵥ Pxx *ᵥ wmwf μ phi ref).re ≤
+      l (vargmax l) * (star (wmwf μ phi ref) ⬝ᵥ Pnn *ᵥ wmwf μ phi ref).re :=
+  ⟨gev_max Pxx Pnn V l hN hX _, gev_max Pxx Pnn V l hN hX _, gev_max Pxx Pnn V l hN hX _⟩
 
 end PbBss.C12
